@@ -263,13 +263,17 @@ class _Sink:
     def __init__(self, index):
         self.index = index
         self.mism = []
+        self.sigs = set()
         self.notes = []
 
     def mismatch(self, clause, tag, case, expected, observed):
-        if len(self.mism) < 12:
+        # the full case (both images, the view) travels once per signature and object
+        sig = (clause, tag)
+        if sig not in self.sigs and len(self.sigs) < 8:
+            self.sigs.add(sig)
             self.mism.append((clause, tag, core.jnorm(case), core.jnorm(expected), core.jnorm(observed)))
         else:
-            self.mism.append((clause, tag, None, None, None))
+            self.mism.append((clause, tag, None, core.jnorm(expected) if len(self.mism) < 40 else None, core.jnorm(observed) if len(self.mism) < 40 else None))
 
 
 _G = {}
@@ -294,7 +298,7 @@ def _replay(run, ctx, obj, ELFFile):
     img2 = concretise([A['eh2']] + A['common'])
     ix = A['ix']
     cclass = view['cclass']
-    brief = {'key': key, 'with_sections_b64': core.b64(img1), 'stripped_b64': core.b64(img2), 'ix': ix}
+    brief = {'key': key, 'with_sections_b64': core.b64(img1), 'stripped_b64': core.b64(img2), 'ix': ix, 'spec_view': view}
     base = '%s/%s' % (o['mode'], o['variant'])
 
     def bad(clause, expected, observed, label, tag=None):
@@ -606,6 +610,40 @@ def _trace_check(run, ctx):
     for f in where:
         run.count('T:' + where[f], nontrivial=True)
     return len(where)
+
+
+# ----------------------------------------------------------------------------- replay of a recorded mismatch
+def _tables(run):
+    res = run.tlc('Dynamic', 'Dynamic_tiny', env=JVM, workers=1)
+    for c in run.cases(res.out):
+        if 'tables' in c:
+            return _Ctx(c['tables'])
+    raise core.MachineryError('Dynamic/Dynamic_tiny emitted no tables record')
+
+
+def replay(run, path):
+    import base64
+    from elftools.elf.elffile import ELFFile
+    rec = json.load(open(path))
+    ctx = _tables(run)
+    corpus = False
+    for n, mm in enumerate([rec['first']] + rec.get('more', [])):
+        c = mm['case']
+        if 'with_sections_b64' not in c:
+            corpus = corpus or 'where' in c
+            continue
+        obj = {'A': {'key': c['key'], 'ix': c['ix'], 'common': [], 'eh1': [0, list(base64.b64decode(c['with_sections_b64'])), 1],
+                     'eh2': [0, list(base64.b64decode(c['stripped_b64'])), 1]},
+               'S': {'sh': []}, 'B': {'view': c['spec_view']}}
+        sink = _Sink(n)
+        run.count(core.digest(c['key']))
+        _replay(sink, ctx, obj, ELFFile)
+        for clause, tag, case, exp, got in sink.mism:
+            run.mismatch(clause, tag, case if case is not None else {'object': c['key']}, exp, got)
+    if corpus:
+        _trace_check(run, ctx)
+    run.validated = run.evaluations
+    return run.finish()
 
 
 # ----------------------------------------------------------------------------- driver
